@@ -11,6 +11,7 @@ import (
 	"os"
 	"runtime"
 	"sort"
+	"strings"
 	"syscall"
 	"unsafe"
 
@@ -103,6 +104,35 @@ func programsMode(path string) {
 	fmt.Println(`{"done":true}`)
 }
 
+// parseMode prints what the two name parsers make of the documented names (three letter cases), of the printed and
+// marshalled forms of every named action, and of a few unknown names: one line "kind input = value | error".
+func parseMode() {
+	for _, n := range []string{"kill_thread", "kill_process", "trap", "errno", "trace", "log", "allow", "nope", "permit", ""} {
+		for _, in := range []string{n, strings.ToUpper(n), strings.Title(n)} {
+			a := seccomp.Action(0xdeadbeef)
+			if err := a.Unpack(in); err != nil {
+				fmt.Printf("action %q = error\n", in)
+				continue
+			}
+			txt, _ := a.MarshalText()
+			var b, c seccomp.Action
+			e1, e2 := b.Unpack(a.String()), c.Unpack(string(txt))
+			fmt.Printf("action %q = %#x printed %q back %#x %v marshalled %q back %#x %v\n", in, uint32(a), a.String(), uint32(b), e1 == nil, txt, uint32(c), e2 == nil)
+		}
+	}
+	for _, n := range []string{"Equal", "NotEqual", "GreaterThan", "LessThan", "GreaterOrEqual", "LessOrEqual", "BitsSet", "BitsNotSet", "Nope"} {
+		for _, in := range []string{n, strings.ToUpper(n), strings.ToLower(n)} {
+			var o seccomp.Operation
+			if err := o.Unpack(in); err != nil {
+				fmt.Printf("operation %q = error\n", in)
+				continue
+			}
+			fmt.Printf("operation %q = %s\n", in, string(o))
+		}
+	}
+	fmt.Println("done")
+}
+
 func main() {
 	if k := os.Getenv("DIGEST_OUTER"); k != "" {
 		if err := installOuter(k); err != nil {
@@ -112,6 +142,10 @@ func main() {
 	}
 	if len(os.Args) > 2 && os.Args[1] == "-programs" {
 		programsMode(os.Args[2])
+		return
+	}
+	if len(os.Args) > 1 && os.Args[1] == "-parse" {
+		parseMode()
 		return
 	}
 	// programs
